@@ -59,6 +59,7 @@ class Array(_PrimitiveType, metaclass=_MetaArray):
     @_intrinsic
     def __init__(self, val=None):
         elemtype = self._elemtype_
+        self._lazy_elements = {}
 
         if isinstance(val, Array):
             val = val._value
@@ -91,13 +92,19 @@ class Array(_PrimitiveType, metaclass=_MetaArray):
         if self._value is not None and index < len(self._value):
             return self._value[index]
 
-        elem_type = self._elemtype_
+        # Elements without an initial value are created on first access
+        # and kept, so all views of one element share the same object
+        # (like the elements of an initialized array).
+        if index not in self._lazy_elements:
+            elem_type = self._elemtype_
 
-        if issubclass(elem_type, Enum):
-            first, *rest = elem_type._member_map_.values()
-            return elem_type(first)
+            if issubclass(elem_type, Enum):
+                first, *rest = elem_type._member_map_.values()
+                self._lazy_elements[index] = elem_type(first)
+            else:
+                self._lazy_elements[index] = elem_type()
 
-        return elem_type()
+        return self._lazy_elements[index]
 
     @_intrinsic
     def __setitem__(self, slice, arg):
